@@ -139,6 +139,8 @@ async def deliver_case(case):
     import puresnmp.util as U
     proto = case["proto"]
     ag = make_agent({}, proto)
+    if case.get("msgmax"):
+        ag.msg_max_size = case["msgmax"]
     n = len(case["values"])
     arcs = [tuple(case.get("oid_base", (1, 3, 6, 1, 4, 1, 99999, 7))) + (i + 1,) for i in range(n)]
     if case.get("oids"):
